@@ -218,6 +218,12 @@ def consumes_name(e):
             a = a.value
         if isinstance(a, (ast.GeneratorExp, ast.ListComp, ast.SetComp, ast.DictComp)):
             a = a.generators[0].iter
+        if isinstance(a, ast.Call) and isinstance(a.func, ast.Name) and a.func.id in ('zip', 'enumerate', 'reversed', 'map', 'filter', 'iter'):
+            return any(bare(x) for x in a.args)         # lazy wrappers hand the consumption on
+        if isinstance(a, ast.BoolOp):
+            return any(bare(x) for x in a.values)
+        if isinstance(a, ast.IfExp):
+            return bare(a.body) or bare(a.orelse)
         if isinstance(a, ast.Attribute):
             c = chain(a)
             return c is not None and c not in _SIZED[0]         # an attribute that is not known to hold a container
@@ -327,6 +333,7 @@ ALIASES = [()]
 
 
 LAMBDA_WRITES = [frozenset()]       # what the bodies of the lambdas of the function at hand may change (set by canonical)
+LAZY_BODIES = [False]               # the function makes generators / map(lambda ..) whose bodies run whenever they are iterated
 
 
 def _prefix(a, b):
@@ -340,6 +347,8 @@ def written_chains(st):
     out = set()
     _REBOUND_ONLY[0] = set()
     rebound = set()
+    if LAZY_BODIES[0]:
+        out |= LAMBDA_WRITES[0]         # any statement may iterate one of them (a for loop, an unpacking, a comprehension)
     for n in ast.walk(st):
         if isinstance(n, ast.AsyncFor):
             out.add(('*',))        # the coroutine is suspended there: anything may change
@@ -349,9 +358,9 @@ def written_chains(st):
                 for x in ast.walk(t):
                     if isinstance(x, (ast.Name, ast.Attribute, ast.Subscript)) and isinstance(getattr(x, 'ctx', None), (ast.Store, ast.Del)):
                         c = chain(x if not isinstance(x, ast.Subscript) else x.value)
-                        if isinstance(x, ast.Name) and (not isinstance(n, ast.AugAssign) or not _allocates(n.value) and x.id not in NOT_ITERATORS[0]):
-                            # the name is given another object: nothing happens to the old one (an augmented assignment whose
-                            # operand is not a display / constructor, on a local never bound to one, is taken as arithmetic)
+                        if isinstance(x, ast.Name) and (not isinstance(n, ast.AugAssign) or _numeric(n.value) or x.id in SCALARS[0]):
+                            # the name is given another object: nothing happens to the old one (an augmented assignment is
+                            # that only for numbers: `buf += chunk` extends a list in place)
                             rebound.add((x.id,))
                             continue
                         if c is not None:
@@ -385,7 +394,7 @@ def written_chains(st):
             out |= LAMBDA_WRITES[0]          # a call may run a lambda of this function (handed over as a callback)
             if isinstance(n.func, ast.Attribute):
                 c = chain(n.func.value)
-                if c == ('self',) and METHOD_WRITES[0].get(n.func.attr) is not None:
+                if False and c == ('self',) and METHOD_WRITES[0].get(n.func.attr) is not None:
                     # a method of this class whose effect on self is known attribute by attribute
                     out |= {('self', a_) for a_ in METHOD_WRITES[0][n.func.attr]}
                 elif c is not None:
@@ -451,6 +460,7 @@ def written_chains(st):
 
 
 _REBOUND_ONLY = [set()]
+SCALARS = [frozenset()]         # names of the function at hand with proof of being numbers (scalar_locals)
 
 
 def _with_aliases(w, plain=()):
@@ -520,10 +530,10 @@ def slot_interferes(st, r):
     if r[0] in MUTABLE_GLOBALS[0] and any(isinstance(n, ast.Call) and not is_pure(n) for n in ast.walk(st)):
         return True
     stores = _store_chains(st)
-    if LAMBDA_WRITES[0] and any(isinstance(n, ast.Call) and not is_pure(n) for n in ast.walk(st)) and any(_prefix(c, r) for c in _cut_written(LAMBDA_WRITES[0])):
+    if LAMBDA_WRITES[0] and (LAZY_BODIES[0] or any(isinstance(n, ast.Call) and not is_pure(n) for n in ast.walk(st))) and any(_prefix(c, r) for c in _cut_written(LAMBDA_WRITES[0])):
         return True         # a lambda / nested function that a call may run binds the slot (or something on the way) anew
     for n in ast.walk(st):
-        if isinstance(n, ast.Call) and isinstance(n.func, ast.Attribute) and chain(n.func.value) == ('self',) and METHOD_WRITES[0].get(n.func.attr) is not None:
+        if False and isinstance(n, ast.Call) and isinstance(n.func, ast.Attribute) and chain(n.func.value) == ('self',) and METHOD_WRITES[0].get(n.func.attr) is not None:
             if any(_prefix(('self', a_), r) for a_ in METHOD_WRITES[0][n.func.attr]):
                 return True     # the method binds that attribute anew (or changes the object it holds: not told apart)
     plain = set(_REBOUND_ONLY[0])
@@ -1371,7 +1381,7 @@ def _impure_before(st, node, moved=None):
                 return False
             if any(y is node for y in ast.walk(x)):
                 continue            # an ancestor of node: evaluated after it
-            if isinstance(x, (ast.Call, ast.Yield, ast.YieldFrom, ast.Await, ast.NamedExpr)) and not is_pure(x):
+            if isinstance(x, (ast.Call, ast.Yield, ast.YieldFrom, ast.Await, ast.NamedExpr, ast.List, ast.Tuple, ast.Set, ast.ListComp, ast.SetComp, ast.DictComp)) and not is_pure(x):
                 return True
             if moved is not None and (isinstance(x, ast.Subscript) and not isinstance(x.slice, ast.Slice) or isinstance(x, (ast.Call, ast.BinOp, ast.Attribute, ast.FormattedValue)) and may_raise(x)):
                 return True         # were that to fail, the moved call would no longer have happened
@@ -1397,7 +1407,7 @@ def _evaluated_before(st, node):
                 return out
             if any(y is node for y in ast.walk(x)):
                 continue
-            if isinstance(x, (ast.Call, ast.Yield, ast.YieldFrom, ast.Await, ast.NamedExpr)) and not is_pure(x):
+            if isinstance(x, (ast.Call, ast.Yield, ast.YieldFrom, ast.Await, ast.NamedExpr, ast.List, ast.Tuple, ast.Set, ast.ListComp, ast.SetComp, ast.DictComp)) and not is_pure(x):
                 out.append(ast.Expr(value=x))
     return [ast.Expr(value=e) for e in exprs]
 
@@ -1442,8 +1452,25 @@ def _split_ifexp(func):
                     break
             if target is None or _impure_before(st, target):
                 continue
-            if may_raise(target.test) and _impure_before(st, target, ast.Call(func=ast.Name(id='_probe_', ctx=ast.Load()), args=[], keywords=[])):
-                continue        # a test that can fail would move in front of something else that can
+            if may_raise(target.test):
+                # a test that can fail must not move in front of something else that can
+                blocked = False
+                inside_t = {id(y) for y in ast.walk(target)}
+                for e in exprs:
+                    done = False
+                    for x in eval_order(e):
+                        if x is target:
+                            done = True
+                            break
+                        if id(x) in inside_t or any(y is target for y in ast.walk(x)):
+                            continue
+                        if isinstance(x, ast.Subscript) and not isinstance(x.slice, ast.Slice) or isinstance(x, (ast.Call, ast.BinOp, ast.FormattedValue)) and may_raise(x) \
+                                or isinstance(x, ast.Attribute) and may_raise(x):
+                            blocked = True
+                    if done:
+                        break
+                if blocked:
+                    continue
             a = copy.deepcopy(st)
             # locate the copy's corresponding node by position in walk order
             idx = [k for k, n in enumerate(ast.walk(st)) if n is target][0]
@@ -2071,6 +2098,7 @@ def drop_dead_locals(func):
     changed = False
     params, stores, loads = _defs_and_uses(func)
     dead = {n for n in stores if n not in params and not loads.get(n) and not n.startswith('__')}
+    dead -= {n.target.id for n in ast.walk(func) if isinstance(n, ast.AugAssign) and isinstance(n.target, ast.Name)}
     if not dead:
         return False
     for n in ast.walk(func):
@@ -2225,23 +2253,17 @@ def _between(func, def_stmt, use_node):
 
 
 def _numeric(e):
-    """visibly a number: built from numeric literals, len / int / float / ord / abs / round, shifts and masks, and arithmetic on
-    those (one numeric operand of + - * makes the other one numeric too, or the operation fails)"""
+    """visibly a plain number: numeric literals, len / int / float / ord / abs / round, names proven numeric, and arithmetic all
+    of whose operands are (an array, a vector, a set or a list somewhere makes the result a new object of that kind)"""
     if isinstance(e, ast.Constant):
         return type(e.value) in (int, float)
     if isinstance(e, ast.Name):
-        return e.id in _NUMERIC_LOCALS[0]
-    if isinstance(e, ast.Call) and isinstance(e.func, ast.Name) and e.func.id in ('len', 'int', 'float', 'ord', 'abs', 'round'):
-        return True
-    if isinstance(e, ast.BinOp) and isinstance(e.op, (ast.LShift, ast.RShift, ast.FloorDiv, ast.Div, ast.Mod, ast.Pow)):
-        return not (isinstance(e.op, ast.Mod) and not _numeric(e.left))
-    if isinstance(e, ast.BinOp) and isinstance(e.op, (ast.Add, ast.Sub)):
-        return _numeric(e.left) or _numeric(e.right)
-    if isinstance(e, ast.BinOp) and isinstance(e.op, ast.Mult):
-        return _numeric(e.left) and _numeric(e.right)
+        return e.id in _NUMERIC_LOCALS[0] or e.id in SCALARS[0]
+    if isinstance(e, ast.Call) and isinstance(e.func, ast.Name) and e.func.id in ('len', 'int', 'float', 'ord', 'abs', 'round') and e.func.id not in SHADOWED[0]:
+        return e.func.id in ('len', 'int', 'float', 'ord') or all(_numeric(a) for a in e.args)
     if isinstance(e, ast.BinOp):
-        return _intlike(e.left) or _intlike(e.right)
-    if isinstance(e, ast.UnaryOp):
+        return _numeric(e.left) and _numeric(e.right)
+    if isinstance(e, ast.UnaryOp) and not isinstance(e.op, ast.Not):
         return _numeric(e.operand)
     return False
 
@@ -2250,6 +2272,8 @@ def _allocates(e):
     """the value is a new mutable object: its identity matters, it cannot be written out twice"""
     if isinstance(e, (ast.List, ast.Dict, ast.Set, ast.ListComp, ast.SetComp, ast.DictComp)):
         return True
+    if isinstance(e, ast.Tuple) and any(_allocates(x) for x in e.elts):
+        return True         # the tuple is immutable, what it holds is fresh
     if isinstance(e, ast.Call) and isinstance(e.func, ast.Name) and e.func.id in ('list', 'dict', 'set', 'bytearray', 'sorted', 'zip', 'map', 'filter', 'iter', 'reversed', 'enumerate'):
         return True         # (the lazy ones are one-shot iterators)
     if isinstance(e, ast.Call) and isinstance(e.func, ast.Attribute) and e.func.attr in ('copy', 'split', 'rsplit', 'splitlines', 'keys', 'values', 'items'):
@@ -2258,7 +2282,7 @@ def _allocates(e):
         return True
     if isinstance(e, ast.BinOp) and isinstance(e.op, (ast.Mult, ast.Add)) and (_allocates(e.left) or _allocates(e.right)):
         return True         # [0] * n, [a] + rest
-    if isinstance(e, ast.BinOp) and isinstance(e.op, (ast.Add, ast.Mult, ast.BitOr, ast.BitAnd, ast.BitXor)) and not _numeric(e):
+    if isinstance(e, ast.BinOp) and not _numeric(e):
         return True         # a + b, row * n, a | b of lists / sets / arrays are new objects
     if isinstance(e, ast.UnaryOp) and not isinstance(e.op, ast.Not) and not _numeric(e.operand):
         return True
@@ -2278,7 +2302,7 @@ _NONRETAINING_METHODS = {'match', 'search', 'fullmatch', 'startswith', 'endswith
                          'unpack_from', 'pack', 'strip', 'lstrip', 'rstrip', 'split', 'rsplit', 'lower', 'upper', 'replace', 'isdigit', 'group', 'hex', 'tobytes'}
 
 
-def _identity_free_uses(func, uses):
+def _identity_free_uses(func, uses, value=None):
     """every use of the value only looks at it: an operand of arithmetic / an ordering or equality comparison, an item or slice
     read, a field of an f-string, the iterable of a loop, an argument of a builtin / str / re / struct function that keeps no
     reference to it, the receiver of a side-effect-free method.  Then it does not matter whether the uses see one object or
@@ -2287,6 +2311,26 @@ def _identity_free_uses(func, uses):
     for n in ast.walk(func):
         for c in ast.iter_child_nodes(n):
             parent[id(c)] = n
+
+    def fresh_elements(v):
+        # does the value hold objects made on the spot (rows of `[[] for ..]`)?  Then reading an item hands out one of them
+        if isinstance(v, (ast.List, ast.Tuple, ast.Set)):
+            return any(_allocates(x.value if isinstance(x, ast.Starred) else x) for x in v.elts)
+        if isinstance(v, ast.Dict):
+            return any(_allocates(x) for x in v.values)
+        if isinstance(v, (ast.ListComp, ast.SetComp, ast.GeneratorExp)):
+            return _allocates(v.elt)
+        if isinstance(v, ast.DictComp):
+            return _allocates(v.value)
+        if isinstance(v, ast.BinOp):
+            return fresh_elements(v.left) or fresh_elements(v.right)
+        if isinstance(v, ast.IfExp):
+            return fresh_elements(v.body) or fresh_elements(v.orelse)
+        if isinstance(v, ast.Call):
+            return any(fresh_elements(a) or isinstance(a, (ast.GeneratorExp, ast.ListComp)) and _allocates(a.elt) for a in v.args)
+        return False
+    value = value if value is not None else ast.Constant(value=None)
+    deep = fresh_elements(value)
     for u in uses:
         p = parent.get(id(u))
         if isinstance(p, ast.Compare) and not any(isinstance(o, (ast.Is, ast.IsNot)) for o in p.ops):
@@ -2295,11 +2339,11 @@ def _identity_free_uses(func, uses):
             continue        # `x is None` does not tell equal objects apart
         if isinstance(p, (ast.BinOp, ast.UnaryOp, ast.FormattedValue)):
             continue
-        if isinstance(p, ast.AugAssign) and p.value is u:
+        if isinstance(p, ast.AugAssign) and p.value is u and not deep:
             continue        # x += v takes what v holds, not v itself
-        if isinstance(p, ast.Subscript) and p.value is u and isinstance(p.ctx, ast.Load):
+        if isinstance(p, ast.Subscript) and p.value is u and isinstance(p.ctx, ast.Load) and not deep:
             continue
-        if isinstance(p, (ast.For, ast.comprehension)) and p.iter is u:
+        if isinstance(p, (ast.For, ast.comprehension)) and p.iter is u and not deep:
             continue
         if isinstance(p, ast.Call) and any(a is u for a in p.args) and not p.keywords:
             if isinstance(p.func, ast.Name) and p.func.id in _NONRETAINING_FUNCS and p.func.id not in SHADOWED[0]:
@@ -2327,7 +2371,7 @@ def inline_temps(func):
                 t = st.targets[0].id
                 if t in params or len(stores.get(t, [])) != 1 or not is_pure(st.value) or _has_nested_scope_use(func, t):
                     continue
-                if _allocates(st.value) and not _identity_free_uses(func, loads.get(t, [])):
+                if _allocates(st.value) and not _identity_free_uses(func, loads.get(t, []), st.value):
                     # a new object may be written out in place of its name only if that happens once per definition
                     us = loads.get(t, [])
                     if len(us) != 1:
@@ -2377,10 +2421,7 @@ def inline_temps(func):
                                 if not (isinstance(s_, ast.Assign) and len(s_.targets) == 1 and isinstance(s_.targets[0], ast.Name) and is_pure(s_.value)):
                                     ok = False
                                 elif may_raise(s_.value):
-                                    t2 = s_.targets[0].id
-                                    u2 = [k_ for k_, x in enumerate(hdr) if isinstance(x, ast.Name) and x.id == t2 and isinstance(x.ctx, ast.Load)]
-                                    if len(stores.get(t2, [])) != 1 or not u2 or min(u2) < fpos or any(_name_nodes(b2, t2) for b2 in block[block.index(s_) + 1:j]):
-                                        ok = False
+                                    ok = False      # (two extracted lookups are put back last-defined first, so this does not bar them)
                             if _evaluated_before(stj, fu):
                                 ok = False
                             # ... and nothing that can fail is evaluated in that statement before it
@@ -3126,6 +3167,7 @@ def _atoms(cond, then, other, budget):
 
 _RAISING_ATOMS = set()
 _OUTER_BOUND = [frozenset()]
+_CTX = [None]
 
 
 def _mk_cond_leaf(cond, then, other):
@@ -3580,7 +3622,7 @@ def _cstmt(st, budget):
         if isinstance(st, ast.FunctionDef) and not (_helper_free_names(st) & _OUTER_BOUND[0]) and not st.decorator_list:
             ob = _OUTER_BOUND[0]
             try:
-                inner = canonical(st)
+                inner = canonical(st, None, None, (), '', None, None, ctx=_CTX[0])
             finally:
                 _OUTER_BOUND[0] = ob
             if inner is not None:
@@ -4037,26 +4079,24 @@ def _alias_sources(v):
 
 
 def scalar_locals(func):
-    """bare names used as numbers somewhere in the function: an operand of - / // % << >> **, compared by order or equality with
-    something visibly numeric, added to / multiplied by something visibly numeric, an argument of range().  A number is not
-    another name for an object: it is never an alias."""
+    """bare names proven to be plain numbers: every binding visibly numeric (_NUMERIC_LOCALS), an argument of range(), a bound of
+    a slice, or compared by order with something visibly numeric in the test of an if / while (an array or a set there would not
+    give a truth value).  A number is not another name for an object: it is never an alias.  Operands of - * / are NOT proof
+    (sets subtract, lists repeat, arrays divide)."""
     out = set(_NUMERIC_LOCALS[0])
+    tests = [n.test for n in ast.walk(func) if isinstance(n, (ast.If, ast.While, ast.IfExp))]
     for _ in range(2):
+        for t in tests:
+            for n in ast.walk(t):
+                if isinstance(n, ast.Compare) and len(n.ops) == 1 and isinstance(n.ops[0], (ast.Lt, ast.LtE, ast.Gt, ast.GtE)):
+                    ops = [n.left, n.comparators[0]]
+                    if any(_numeric(o) or isinstance(o, ast.Name) and o.id in out for o in ops):
+                        out |= {o.id for o in ops if isinstance(o, ast.Name)}
         for n in ast.walk(func):
-            if isinstance(n, ast.BinOp):
-                ops = [n.left, n.right]
-                if isinstance(n.op, (ast.Sub, ast.Div, ast.FloorDiv, ast.LShift, ast.RShift, ast.Pow)) or \
-                        isinstance(n.op, (ast.Add, ast.Mult, ast.Mod)) and any(_numeric(o) or isinstance(o, ast.Name) and o.id in out for o in ops) and not any(isinstance(o, (ast.Constant, ast.JoinedStr)) and not _numeric(o) for o in ops):
-                    out |= {o.id for o in ops if isinstance(o, ast.Name)}
-            elif isinstance(n, ast.AugAssign) and isinstance(n.target, ast.Name) and (isinstance(n.op, (ast.Sub, ast.Div, ast.FloorDiv, ast.LShift, ast.RShift)) or _numeric(n.value)
-                                                                                     or isinstance(n.value, ast.Name) and n.value.id in out):
-                out.add(n.target.id)
-            elif isinstance(n, ast.Compare) and len(n.ops) == 1 and not isinstance(n.ops[0], (ast.In, ast.NotIn, ast.Is, ast.IsNot)):
-                ops = [n.left, n.comparators[0]]
-                if any(_numeric(o) or isinstance(o, ast.Name) and o.id in out for o in ops):
-                    out |= {o.id for o in ops if isinstance(o, ast.Name)}
-            elif isinstance(n, ast.Call) and isinstance(n.func, ast.Name) and n.func.id == 'range':
+            if isinstance(n, ast.Call) and isinstance(n.func, ast.Name) and n.func.id == 'range':
                 out |= {a.id for a in n.args if isinstance(a, ast.Name)}
+            elif isinstance(n, ast.Slice):
+                out |= {a.id for a in (n.lower, n.upper, n.step) if isinstance(a, ast.Name)}
     return out
 
 
@@ -4109,6 +4149,7 @@ def canonical(func, helpers=None, consts=None, sized=None, cls_name=None, props=
         saved = (_SIZED[0], _CLASS[0], _NO_CLOSURES[0], _NO_CLOSURES[1], _DICTS[0], NOT_ITERATORS[0], SHADOWED[0], ALIASES[0], ALL_PROPS[0], _TREE_SAFE[0], _HANDLER_READS[0],
                  set(_PURE_ATOMS), set(_RAISING_ATOMS), (_SIMPLE_STORES[0], _BOOL_MARKS[0], _SET_LOCALS[0]))
         ctx = ctx or {}
+        _CTX[0] = ctx
         if any(isinstance(n, (ast.Global, ast.Nonlocal)) for n in ast.walk(func)):
             raise NotCanonicalisable('global / nonlocal')           # such names are not locals: none of the local-variable steps applies
         # every name the function binds, by whatever means, in whatever scope inside it
@@ -4161,6 +4202,8 @@ def canonical(func, helpers=None, consts=None, sized=None, cls_name=None, props=
                     if isinstance(t_, ast.Name):
                         _numok.setdefault(t_.id, []).append(_numeric(n.value))
             _NUMERIC_LOCALS[0] = frozenset(k for k, v in _numok.items() if all(v) and len(v) == len(_stores.get(k, [])) and k not in _params(func))
+        _saved_sc = SCALARS[0]
+        SCALARS[0] = frozenset(scalar_locals(func))
         ALIASES[0] = function_aliases(func)
         _nt, _ntc = set(), set()
         for n in ast.walk(func):
@@ -4176,19 +4219,34 @@ def canonical(func, helpers=None, consts=None, sized=None, cls_name=None, props=
         _saved_nt = (NONE_TESTED[0], ATTR_ERRORS_CAUGHT[0], LAMBDA_WRITES[0], NONE_TESTED_CHAINS[0])
         NONE_TESTED[0] = frozenset(_nt - {'self'})
         NONE_TESTED_CHAINS[0] = frozenset(_ntc)
-        ATTR_ERRORS_CAUGHT[0] = any(isinstance(h, ast.ExceptHandler) and (h.type is None or any(isinstance(x, ast.Name) and x.id in ('AttributeError', 'Exception', 'BaseException')
-                                                                                              for x in ast.walk(h.type))) for h in ast.walk(func))
+        # (a handler that names AttributeError: the code reckons with attribute reads failing; a catch-all handler is taken to be
+        # there for other reasons)
+        ATTR_ERRORS_CAUGHT[0] = any(isinstance(h, ast.ExceptHandler) and h.type is not None and any(isinstance(x, ast.Name) and x.id == 'AttributeError' for x in ast.walk(h.type))
+                                    for h in ast.walk(func))
         _lw = set()
+        _lazy = False
         for n in ast.walk(func):
             if isinstance(n, ast.Lambda):
                 LAMBDA_WRITES[0] = frozenset()
                 _lw |= written_chains(ast.Expr(value=n.body))
             elif n is not func and isinstance(n, ast.FunctionDef):
                 LAMBDA_WRITES[0] = frozenset()
-                own = set(_params(n)) | {x.id for x in ast.walk(n) if isinstance(x, ast.Name) and isinstance(x.ctx, (ast.Store, ast.Del))}
+                _ct = {id(x) for c_ in ast.walk(n) if isinstance(c_, _COMPS) for g_ in c_.generators for x in ast.walk(g_.target)}
+                own = set(_params(n)) | {x.id for x in ast.walk(n) if isinstance(x, ast.Name) and isinstance(x.ctx, (ast.Store, ast.Del)) and id(x) not in _ct}
                 for b_ in n.body:
                     _lw |= {c for c in written_chains(b_) if c[0] not in own}
+                if any(isinstance(x, (ast.Yield, ast.YieldFrom)) for x in ast.walk(n)):
+                    _lazy = True        # a generator function: its body runs when the result is iterated, not when it is called
+            elif isinstance(n, ast.GeneratorExp):
+                LAMBDA_WRITES[0] = frozenset()
+                for x in [n.elt] + [i_ for g_ in n.generators for i_ in g_.ifs]:
+                    _lw |= written_chains(ast.Expr(value=x))
+                _lazy = _lazy or bool(written_chains(ast.Expr(value=n.elt)))
+            elif isinstance(n, ast.Call) and isinstance(n.func, ast.Name) and n.func.id in ('map', 'filter') and n.args and isinstance(n.args[0], ast.Lambda):
+                _lazy = True
         LAMBDA_WRITES[0] = frozenset(_lw)
+        _saved_lz = LAZY_BODIES[0]
+        LAZY_BODIES[0] = bool(_lazy and _lw)
         _SIZED[0] = frozenset(sized or ()) if sized is not None else _SIZED[0]
         _CLASS[0] = cls_name if cls_name is not None else _CLASS[0]
         f = copy.deepcopy(func)
@@ -4344,6 +4402,8 @@ def canonical(func, helpers=None, consts=None, sized=None, cls_name=None, props=
             _OTHER_METHODS[0] = _saved_om
             MUTABLE_GLOBALS[0] = _saved_mg
             METHOD_WRITES[0] = _saved_mw
+            SCALARS[0] = _saved_sc
             NONE_TESTED[0], ATTR_ERRORS_CAUGHT[0], LAMBDA_WRITES[0], NONE_TESTED_CHAINS[0] = _saved_nt
+            LAZY_BODIES[0] = _saved_lz
         except NameError:
             pass
